@@ -486,6 +486,149 @@ def run_subview_cases(fst, kind, n, res, tier):
                     judge(fst, kind, cid, src, root, exp, exc, res, params, rep, True)
 
 
+def _view_ops(L):
+    """operation menu through a view whose window currently has L elements: (name, arity of new code)"""
+    out = [('append', None), ('prepend', None), ('extend', None)]
+    for i in range(L + 1):
+        out.append(('insert', i))
+    for i in range(L):
+        out += [('setitem', i), ('setnone', i), ('delitem', i)]
+    for i in range(L + 1):
+        for j in range(i, min(L, i + 2) + 1):
+            out.append(('setslice', (i, j)))
+            if j > i:
+                out.append(('delslice', (i, j)))
+    return out
+
+
+def run_viewhist_cases(fst, kind, n, res, tier):
+    """Histories of operations through ONE view object view[a:b] (explicit-state search over the window model): the view's bounds have
+    to follow every operation made through it. Reference: a Python list for the field and a (start, stop) window; after every step
+    the whole program, len(view) and the sources of the view's elements are compared with the model."""
+    old = kind.el[:n]
+    src = kind.tmpl(old)
+    if n < max(kind.minlen, 2) or O.try_parse(src) is None:
+        return
+    f = kind.field
+    depth = 2 if tier == 'quick' else 3
+    news = [kind.new[0], kind.new[1], kind.new[0] if len(kind.new) < 3 else kind.new[2]]
+
+    def model(lst, a, b, op, arg, x, y):
+        lst = list(lst)
+        if op == 'append':
+            lst.insert(b, x)
+            return lst, a, b + 1
+        if op == 'prepend':
+            lst.insert(a, x)
+            return lst, a, b + 1
+        if op == 'extend':
+            lst[b:b] = [x, y]
+            return lst, a, b + 2
+        if op == 'insert':
+            lst.insert(a + arg, x)
+            return lst, a, b + 1
+        if op == 'setitem':
+            lst[a + arg] = x
+            return lst, a, b
+        if op in ('setnone', 'delitem'):
+            del lst[a + arg]
+            return lst, a, b - 1
+        i, j = arg
+        if op == 'setslice':
+            lst[a + i:a + j] = [x, y]
+            return lst, a, b + 2 - (j - i)
+        del lst[a + i:a + j]
+        return lst, a, b - (j - i)
+
+    def do(v, op, arg, x, y):
+        if op == 'append':
+            v.append(kind.code([x]), **kind.opts)
+        elif op == 'prepend':
+            v.prepend(kind.code([x]), **kind.opts)
+        elif op == 'extend':
+            v.extend(kind.code([x, y]), **kind.opts)
+        elif op == 'insert':
+            v.insert(kind.code([x]), arg, **kind.opts)
+        elif op == 'setitem':
+            v[arg] = kind.one(x)
+        elif op == 'setnone':
+            v[arg] = None
+        elif op == 'delitem':
+            del v[arg]
+        elif op == 'setslice':
+            v[arg[0]:arg[1]] = kind.code([x, y])
+        else:
+            del v[arg[0]:arg[1]]
+
+    def explore(a, b, hist, lst, wa, wb):
+        """hist: list of (op, arg) already applied (model state lst, window wa:wb); try every next operation"""
+        for op, arg in _view_ops(wb - wa):
+            step = len(hist)
+            x = news[step] + ('' if step < 2 else '')
+            y = news[(step + 1) % 3]
+            h2 = hist + [(op, arg)]
+            cid = f'C03/{kind.name}/n{n}/view[{a}:{b}]:' + ';'.join(f'{o}({g})' for o, g in h2)
+            params = {'kind': kind.name, 'entry': 'viewhist.' + op, 'reversed_bounds': False, 'lay': 'bare'}
+            rep = {'kind': kind.name, 'n': n, 'viewhist': [a, b, [[o, g] for o, g in h2]]}
+            root = fst.FST(src, 'exec')
+            res.evals += 1
+            exc = None
+            l2, a2, b2 = lst, wa, wb
+            try:
+                with deadline(10):
+                    with fst.FST.options(norm=True, **kind.opts):
+                        v = getattr(node_at(root, kind.path), f)[a:b]
+                        ml, ma, mb = old, a, b
+                        for k, (o, g) in enumerate(h2):  # replay the prefix (it succeeded before) and take the new step
+                            xx, yy = news[k], news[(k + 1) % 3]
+                            if k == len(h2) - 1:
+                                pre_src = root.src
+                            do(v, o, g, xx, yy)
+                            res.transitions += 1
+                            ml, ma, mb = model(ml, ma, mb, o, g, xx, yy)
+                        l2, a2, b2 = ml, ma, mb
+            except CaseTimeout:
+                res.fail(cid, 'hang', '', params, rep)
+                continue
+            except Exception as ex:  # noqa: BLE001
+                exc = ex
+                l2, a2, b2 = model(lst, wa, wb, op, arg, x, y)
+            collapsed = len(l2) < max(kind.minlen, kind.startmin)  # normalisation turns the container into another kind of node
+            if collapsed:
+                params['container_collapsed'] = True
+            if exc is not None and len(h2) > 1 and root.src != pre_src:
+                res.traces += 1
+                res.fail(cid, 'refused-but-changed', f'src={src!r}\n{exc!r}\nnow={root.src!r}', params, rep)
+                continue
+            before = res.nfails
+            judge(fst, kind, cid, src if len(h2) == 1 else (pre_src if exc is not None else src), root, l2, exc, res, params, rep, True)
+            if exc is not None or res.nfails != before or collapsed:
+                continue  # a view of a container that no longer exists is not read
+            # the view itself: length and elements as the window model says
+            try:
+                got_len = len(v)
+                got_els = [e.src if hasattr(e, 'src') else str(e) for e in v]
+            except Exception as ex:  # noqa: BLE001
+                res.fail(cid, 'view-unreadable-after-edit:' + ex.__class__.__name__, f'src={src!r}\nnow={root.src!r}\n{ex!r}', params, rep)
+                continue
+            mroot = fst.FST(kind.tmpl(l2), 'exec')  # the model program's own view of the same window
+            want_els = [e.src if hasattr(e, 'src') else str(e) for e in getattr(node_at(mroot, kind.path), f)[a2:b2]]
+            if got_len != b2 - a2 or [_ws(e) for e in got_els] != [_ws(e) for e in want_els]:
+                res.fail(cid, 'view-window-differs-from-model', f'src={src!r}\nnow={root.src!r}\nview has {got_len}: {got_els}\nmodel window [{a2}:{b2}] of {l2}: {want_els}',
+                         params, rep)
+                continue
+            if len(h2) < depth:
+                explore(a, b, h2, l2, a2, b2)
+
+    for a in range(n + 1):
+        for b in range(a, n + 1):
+            explore(a, b, [], old, a, b)
+
+
+def _ws(s):
+    return re.sub(r'\s+', '', s)
+
+
 def shards(tier):
     nmax = 3 if tier == 'quick' else 4
     out = []
@@ -495,6 +638,8 @@ def shards(tier):
             out.append({'kind': k.name, 'n': n, 'what': 'index'})
             if n >= 2:
                 out.append({'kind': k.name, 'n': n, 'what': 'subview'})
+            if n == 3 or (n == 4 and tier == 'thorough'):
+                out.append({'kind': k.name, 'n': n, 'what': 'viewhist'})
     return out
 
 
@@ -505,6 +650,8 @@ def run_shard(desc, tier, res):
         run_slice_cases(fst, kind, desc['n'], res, tier)
     elif desc['what'] == 'subview':
         run_subview_cases(fst, kind, desc['n'], res, tier)
+    elif desc['what'] == 'viewhist':
+        run_viewhist_cases(fst, kind, desc['n'], res, tier)
     else:
         run_index_cases(fst, kind, desc['n'], res, tier)
 
@@ -512,7 +659,9 @@ def run_shard(desc, tier, res):
 def replay(rep, res):
     import fst
     kind = KIND[rep['kind']]
-    if 'subview' in rep:
+    if 'viewhist' in rep:
+        run_viewhist_cases(fst, kind, rep['n'], res, 'quick' if len(rep['viewhist'][2]) <= 2 else 'thorough')
+    elif 'subview' in rep:
         run_subview_cases(fst, kind, rep['n'], res, 'quick')
     elif 'index_case' in rep:
         run_index_cases(fst, kind, rep['n'], res, 'quick')
